@@ -42,6 +42,7 @@ def gen(rng, tier, i):
                 'flavour': rng.choice(['wave', 'logic']), 'branchforks': rng.random() < 0.5}
     if r < 0.40: return heapsim.gen_history(rng, tier)
     script = cgen.gen_script(rng, max_gates=rng.choice([8, 16, 30, 40]), max_in=6, max_ff=3)
+    if rng.random() < 0.03: script = {'net': 'b01'}
     if r < 0.72:
         return {'mode': 'map', 'script': script, 'flavour': rng.choice(['wave', 'wave', 'logic']), 'caps': wavegen.gen_caps(rng, p_fault=0.7),
                 'knobs': [[a, b] for a in (False, True) for b in (False, True)], 'order_seed': rng.randrange(1 << 20),
